@@ -3,17 +3,27 @@
     knadh/koanf they rely on: env.Provider.Read, maps.Unflatten, Koanf.Load with
     a merge function).
 
-    Faithful to the code as it is.  Go's map iteration order is not defined;
-    the model iterates association lists in list order, so "every iteration
-    order" is "every permutation of the lists" (see Proofs.v / Eval_C20.v).
-    Go panics are explicit.  Two booleans select the candidate repairs
-    fixes/C20-F3.diff ([fix3]: cleanSuffix merges entries that receive the same
-    name instead of overwriting) and fixes/C20-F4.diff ([fix4]: convert nests a
-    dotted key below a list index instead of leaving it flat); [false false] is
-    the tree as it is.
+    Faithful to the code as it is.  Go panics are explicit.
 
-    Map keys are kept structured: a Go key "a.b#<hash>" is ([a;b], Some tag).
-    Segments themselves never contain '.' or '#' (input domain, see notes). *)
+    Go's map iteration order is not defined.  Maps are association lists here
+    and every [range] over a Go map goes through [sh site l], an arbitrary
+    re-ordering of the list (a Section variable; the theorems assume nothing
+    about it but [Permutation (sh site l) l], the evaluator instantiates it
+    with identity/reversal per site).  Sites:
+      0  maps.Unflatten           for k, v := range m
+      1  the merge functions of koanfFromEnv and of Load    for key, val := range src
+      2  cleanSuffix              for k, v := range t
+      3  mergeMaps                for k, v := range maps.Unflatten(src, ".")
+
+    Two booleans select the candidate repairs fixes/C20-F3.diff ([fix3]:
+    cleanSuffix merges entries that receive the same name instead of
+    overwriting) and fixes/C20-F4.diff ([fix4]: convert nests a dotted key below a
+    list index instead of leaving it flat); [false false] is the tree as it is.
+
+    Map keys are kept structured: a Go key "a.b#<hash>" is ([a;b], Some tag),
+    where the tag is the pre-image of the sha256 chain: the normalised variable
+    name and the value text.  Segments themselves never contain '.' or '#'
+    (input domain, see docs/notes/C20.md). *)
 From HV Require Import Base.Prelude.
 
 (* ------------------------------------------------------------------ strings *)
@@ -98,9 +108,14 @@ Definition atoi (s : string) : N := atoi_aux 0%N s.
 
 (* ------------------------------------------------------------------ trees *)
 
-(** a map key: its '.'-separated segments and the "#<hash>" suffix (the hash is
-    represented by the number of the variable it was computed from) *)
-Definition key := (list string * option nat)%type.
+(** pre-image of messageDigest(val, ... messageDigest(val, normalisedKey)) *)
+Definition tag := (string * string)%type.
+
+Definition tag_eqb (a b : tag) : bool :=
+  String.eqb (fst a) (fst b) && String.eqb (snd a) (snd b).
+
+(** a map key: its '.'-separated segments and the "#<hash>" suffix *)
+Definition key := (list string * option tag)%type.
 
 Definition K (s : string) : key := ([s], None).
 
@@ -116,7 +131,7 @@ Arguments Ok {A} a. Arguments Panic {A}.
 Definition segs_eqb (a b : list string) : bool := list_eqb String.eqb a b.
 
 Definition key_eqb (a b : key) : bool :=
-  segs_eqb (fst a) (fst b) && option_eqb Nat.eqb (snd a) (snd b).
+  segs_eqb (fst a) (fst b) && option_eqb tag_eqb (snd a) (snd b).
 
 Fixpoint lookup (k : key) (m : list (key * cfg)) : option cfg :=
   match m with
@@ -142,7 +157,7 @@ Definition strip (k : key) : key := (fst k, None).
 
 (** maps.Unflatten: one key.  Intermediate segments descend into (or create)
     maps; a non-map found on the way leaves the cursor where it is. *)
-Fixpoint insert_path (m : list (key * cfg)) (segs : list string) (tg : option nat) (v : cfg)
+Fixpoint insert_path (m : list (key * cfg)) (segs : list string) (tg : option tag) (v : cfg)
   {struct segs} : list (key * cfg) :=
   match segs with
   | [] => m
@@ -155,216 +170,235 @@ Fixpoint insert_path (m : list (key * cfg)) (segs : list string) (tg : option na
       end
   end.
 
-Definition unflatten (m : list (key * cfg)) : list (key * cfg) :=
-  fold_left (fun out kv => insert_path out (fst (fst kv)) (snd (fst kv)) (snd kv)) m [].
+Definition ins_kv (out : list (key * cfg)) (kv : key * cfg) : list (key * cfg) :=
+  insert_path out (fst (fst kv)) (snd (fst kv)) (snd kv).
 
-(** cleanSuffix as it is: keys lose their suffix; entries that thereby get the
-    same name overwrite each other (the last one iterated wins); slices are
-    returned untouched *)
-Fixpoint clean_asis (src : cfg) : cfg :=
-  match src with
-  | Map m =>
-      Map ((fix go (m : list (key * cfg)) (acc : list (key * cfg)) : list (key * cfg) :=
-              match m with
-              | [] => acc
-              | (k, v) :: r => go r (set (strip k) (clean_asis v) acc)
-              end) m [])
-  | _ => src
-  end.
+Section Order.
+  (** the iteration order of Go maps, per site *)
+  Variable sh : nat -> list (key * cfg) -> list (key * cfg).
 
-Section Merge.
-  (** what [merge] does with [src] when [dest] is nil *)
-  Variable cl : cfg -> res cfg.
-  (** Go iterates Unflatten(src) in an undefined order; that only matters when
-      src holds a dotted key next to the map it expands into (C20-F4 aftermath).
-      [flip] makes the model iterate the other way round. *)
-  Variable flip : bool.
+  Definition unflatten (m : list (key * cfg)) : list (key * cfg) :=
+    fold_left ins_kv (sh 0 m) [].
 
-  (** merge.go: merge / mergeMaps / mergeSlices.  Structurally recursive on
-      [dest]: mergeMaps visits every key of Unflatten(src) once, so the loop is
-      written per key of [dest] followed by the keys that are new. *)
-  Fixpoint merge_with (dest src : cfg) {struct dest} : res cfg :=
-    match dest with
-    | Nil => cl src
-    | Leaf _ => Ok src
-    | Map dm =>
-        match src with
-        | Map sm =>
-            let usm := unflatten (if flip then rev sm else sm) in
-            let fix upd (dm : list (key * cfg)) : res (list (key * cfg)) :=
-                match dm with
-                | [] => Ok []
-                | (k, old) :: r =>
-                    let nv := match lookup k usm with
-                              | None => Ok old
-                              | Some v => match old with
-                                          | Nil => Ok v
-                                          | _ => merge_with old v
-                                          end
-                              end in
-                    match nv, upd r with
-                    | Ok x, Ok r' => Ok ((k, x) :: r')
-                    | _, _ => Panic
-                    end
-                end in
-            match upd dm with
-            | Ok dm' => Ok (Map (dm' ++ filter (fun kv => negb (mem (fst kv) dm)) usm))
-            | Panic => Panic
-            end
-        | _ => Panic          (* "Cannot merge ... Types are different" / reflect on nil *)
-        end
-    | Lst dl =>
-        match src with
-        | Lst sl =>
-            let fix zip (dl sl : list cfg) : res (list cfg) :=
-                match dl, sl with
-                | [], _ => Ok sl
-                | _, [] => Ok dl
-                | a :: dr, v :: sr =>
-                    let nv := match a with
-                              | Nil => Ok v
-                              | _ => match v with Nil => Ok a | _ => merge_with a v end
-                              end in
-                    match nv, zip dr sr with
-                    | Ok x, Ok r => Ok (x :: r)
-                    | _, _ => Panic
-                    end
-                end in
-            match zip dl sl with
-            | Ok l => Ok (Lst l)
-            | Panic => Panic
-            end
-        | _ => Panic
-        end
-    end.
-End Merge.
+  Definition set_kv (acc : list (key * cfg)) (kv : key * cfg) : list (key * cfg) :=
+    set (fst kv) (snd kv) acc.
 
-Definition merge0 : cfg -> cfg -> res cfg := merge_with (fun s => Ok (clean_asis s)) false.
-
-(** cleanSuffix after fixes/C20-F3.diff: result[name] = merge(result[name], cleanSuffix(v)).
-    The inner merge only meets already cleaned values, on which the repaired and
-    the original cleanSuffix coincide; it is therefore [merge0]. *)
-Fixpoint clean_fixed (src : cfg) : res cfg :=
-  match src with
-  | Map m =>
-      (fix go (m : list (key * cfg)) (acc : list (key * cfg)) : res cfg :=
-         match m with
-         | [] => Ok (Map acc)
-         | (k, v) :: r =>
-             match clean_fixed v with
-             | Panic => Panic
-             | Ok cv =>
-                 match merge0 (get (strip k) acc) cv with
-                 | Ok nv => go r (set (strip k) nv acc)
-                 | Panic => Panic
-                 end
-             end
-         end) m []
-  | _ => Ok src
-  end.
-
-Definition merge (fix3 flip : bool) : cfg -> cfg -> res cfg :=
-  merge_with (if fix3 then clean_fixed else fun s => Ok (clean_asis s)) flip.
-
-(* ------------------------------------------------------------------ environment *)
-
-Definition key_is_empty (k : list string) : bool :=
-  match k with
-  | [] => true
-  | [s] => String.eqb s EmptyString
-  | _ => false
-  end.
-
-Fixpoint nest (k : list string) (v : cfg) : cfg :=
-  match k with
-  | [] => v
-  | [s] => Map [(K s, v)]
-  | s :: r => Map [(K s, nest r v)]
-  end.
-
-(** a numeric segment above 2^20 is outside the modelled domain (Go would
-    allocate the slice or die); the drivers never generate one *)
-Definition max_index : N := 1048576%N.
-
-(** env.go convert on the split key: the segments before the first numeric one
-    are the key, the rest becomes a sparse slice around the converted remainder *)
-Fixpoint convert (fix4 : bool) (parts : list string) (v : cfg) : res (list string * cfg) :=
-  match parts with
-  | [] => Ok ([], v)
-  | p :: rest =>
-      match convert fix4 rest v with
-      | Panic => Panic
-      | Ok (k', v') =>
-          if is_num p then
-            if (max_index <? atoi p)%N then Panic else
-            let elem := if key_is_empty k' then v'
-                        else if fix4 then nest k' v' else Map [((k', None), v')] in
-            Ok ([], Lst (repeat Nil (N.to_nat (atoi p)) ++ [elem]))
-          else Ok (p :: k', v')
-      end
-  end.
-
-Definition unsplit (k : list string) : list string :=
-  match k with [] => [EmptyString] | _ => k end.
-
-(** number of the first variable with the same normalised key and value: the
-    stand-in for sha256(value, key) *)
-Fixpoint tag_of (nk val : string) (seen : list (string * string)) : nat :=
-  match seen with
-  | [] => 0
-  | (k, v) :: r => if String.eqb k nk && String.eqb v val then 0 else S (tag_of nk val r)
-  end.
-
-Section Env.
-  Variable to_real : string -> cfg.      (* toRealType: YAML typing of a scalar text (oracle) *)
-  Variables fix3 fix4 flip : bool.
-  Variable pfx : string.
-
-  Definition norm_env (env : list (string * string)) : list (string * string) :=
-    map (fun nv => (normalise_key pfx (fst nv), snd nv))
-        (filter (fun nv => prefix pfx (fst nv)) env).
-
-  (** env.Provider.Read: the Go map keyed by "<newKey>#<hash>" *)
-  Fixpoint env_mp (all rest : list (string * string)) (mp : list (key * cfg)) : res (list (key * cfg)) :=
-    match rest with
-    | [] => Ok mp
-    | (nk, val) :: r =>
-        match convert fix4 (split_dot nk) (to_real val) with
-        | Panic => Panic
-        | Ok (k, v) => env_mp all r (set (unsplit k, Some (tag_of nk val all)) v mp)
-        end
+  (** cleanSuffix as it is: keys lose their suffix; entries that thereby get the
+      same name overwrite each other (the last one iterated wins); slices are
+      returned untouched *)
+  Fixpoint clean_asis (src : cfg) : cfg :=
+    match src with
+    | Map m =>
+        Map (fold_left set_kv
+               (sh 2 ((fix go (m : list (key * cfg)) : list (key * cfg) :=
+                         match m with
+                         | [] => []
+                         | (k, v) :: r => (strip k, clean_asis v) :: go r
+                         end) m)) [])
+    | _ => src
     end.
 
-  (** the merge function of koanfFromEnv / of Load: dest[name] = merge(dest[name], val) *)
-  Definition merge_top (strip_keys : bool) (dest src : list (key * cfg)) : res (list (key * cfg)) :=
-    fold_left (fun acc kv =>
-                 match acc with
-                 | Panic => Panic
-                 | Ok dest =>
-                     let k := if strip_keys then strip (fst kv) else fst kv in
-                     match merge fix3 flip (get k dest) (snd kv) with
-                     | Ok nv => Ok (set k nv dest)
-                     | Panic => Panic
+  (** the loops of mergeMaps / mergeSlices over an arbitrary [rec] for the
+      recursive call of merge on two non-nil values *)
+  Section Loops.
+    Variable rec : cfg -> cfg -> res cfg.
+
+    Definition merge_entry (old : cfg) (nv : option cfg) : res cfg :=
+      match nv with
+      | None => Ok old
+      | Some v => match old with Nil => Ok v | _ => rec old v end
+      end.
+
+    Fixpoint upd_map (usm dm : list (key * cfg)) : res (list (key * cfg)) :=
+      match dm with
+      | [] => Ok []
+      | (k, old) :: r =>
+          match merge_entry old (lookup k usm), upd_map usm r with
+          | Ok x, Ok r' => Ok ((k, x) :: r')
+          | _, _ => Panic
+          end
+      end.
+
+    Fixpoint zip_lst (dl sl : list cfg) : res (list cfg) :=
+      match dl, sl with
+      | [], _ => Ok sl
+      | _, [] => Ok dl
+      | a :: dr, v :: sr =>
+          match (match a with
+                 | Nil => Ok v
+                 | _ => match v with Nil => Ok a | _ => rec a v end
+                 end), zip_lst dr sr with
+          | Ok x, Ok r => Ok (x :: r)
+          | _, _ => Panic
+          end
+      end.
+  End Loops.
+
+  Section Merge.
+    (** what [merge] does with [src] when [dest] is nil *)
+    Variable cl : cfg -> res cfg.
+
+    (** merge.go: merge / mergeMaps / mergeSlices.  Structurally recursive on
+        [dest]: mergeMaps visits every key of Unflatten(src) once, so the loop is
+        written per key of [dest] followed by the keys that are new. *)
+    Fixpoint merge_with (dest src : cfg) {struct dest} : res cfg :=
+      match dest with
+      | Nil => cl src
+      | Leaf _ => Ok src
+      | Map dm =>
+          match src with
+          | Map sm =>
+              let usm := unflatten sm in
+              match upd_map (fun o v => merge_with o v) usm dm with
+              | Ok dm' => Ok (Map (dm' ++ filter (fun kv => negb (mem (fst kv) dm)) (sh 3 usm)))
+              | Panic => Panic
+              end
+          | _ => Panic          (* "Cannot merge ... Types are different" / reflect on nil *)
+          end
+      | Lst dl =>
+          match src with
+          | Lst sl =>
+              match zip_lst (fun a v => merge_with a v) dl sl with
+              | Ok l => Ok (Lst l)
+              | Panic => Panic
+              end
+          | _ => Panic
+          end
+      end.
+  End Merge.
+
+  Definition merge0 : cfg -> cfg -> res cfg := merge_with (fun s => Ok (clean_asis s)).
+
+  (** cleanSuffix after fixes/C20-F3.diff: result[name] = merge(result[name], cleanSuffix(v)).
+      The inner merge only meets already cleaned values, on which the repaired and
+      the original cleanSuffix coincide; it is therefore [merge0]. *)
+  Fixpoint clean_fixed (src : cfg) : res cfg :=
+    match src with
+    | Map m =>
+        match (fix go (m : list (key * cfg)) : res (list (key * cfg)) :=
+                 match m with
+                 | [] => Ok []
+                 | (k, v) :: r =>
+                     match clean_fixed v, go r with
+                     | Ok cv, Ok r' => Ok ((strip k, cv) :: r')
+                     | _, _ => Panic
                      end
-                 end) src (Ok dest).
-
-  Definition env_tree (env : list (string * string)) : res (list (key * cfg)) :=
-    let ne := norm_env env in
-    match env_mp ne ne [] with
-    | Panic => Panic
-    | Ok mp => merge_top true [] (unflatten mp)
+                 end) m with
+        | Panic => Panic
+        | Ok cm =>
+            match fold_left (fun acc kv =>
+                               match acc with
+                               | Panic => Panic
+                               | Ok a => match merge0 (get (fst kv) a) (snd kv) with
+                                         | Ok nv => Ok (set (fst kv) nv a)
+                                         | Panic => Panic
+                                         end
+                               end) (sh 2 cm) (Ok []) with
+            | Ok a => Ok (Map a)
+            | Panic => Panic
+            end
+        end
+    | _ => Ok src
     end.
 
-  (** configloader.go Load up to the final decoding: defaults, then the file (if
-      any), then the environment *)
-  Definition load (d : list (key * cfg)) (f : option (list (key * cfg))) (env : list (string * string))
-    : res (list (key * cfg)) :=
-    match (match f with None => Ok d | Some fm => merge_top false d fm end) with
-    | Panic => Panic
-    | Ok p1 =>
-        match env_tree env with
+  Definition merge (fix3 : bool) : cfg -> cfg -> res cfg :=
+    merge_with (if fix3 then clean_fixed else fun s => Ok (clean_asis s)).
+
+  (* ---------------------------------------------------------------- environment *)
+
+  Definition key_is_empty (k : list string) : bool :=
+    match k with
+    | [] => true
+    | [s] => String.eqb s EmptyString
+    | _ => false
+    end.
+
+  Fixpoint nest (k : list string) (v : cfg) : cfg :=
+    match k with
+    | [] => v
+    | [s] => Map [(K s, v)]
+    | s :: r => Map [(K s, nest r v)]
+    end.
+
+  (** a numeric segment above 2^20 is outside the modelled domain (Go would
+      allocate the slice or die); the drivers never generate one *)
+  Definition max_index : N := 1048576%N.
+
+  (** env.go convert on the split key: the segments before the first numeric one
+      are the key, the rest becomes a sparse slice around the converted remainder *)
+  Fixpoint convert (fix4 : bool) (parts : list string) (v : cfg) : res (list string * cfg) :=
+    match parts with
+    | [] => Ok ([], v)
+    | p :: rest =>
+        match convert fix4 rest v with
         | Panic => Panic
-        | Ok e => merge_top false p1 e
+        | Ok (k', v') =>
+            if is_num p then
+              if (max_index <? atoi p)%N then Panic else
+              let elem := if key_is_empty k' then v'
+                          else if fix4 then nest k' v' else Map [((k', None), v')] in
+              Ok ([], Lst (repeat Nil (N.to_nat (atoi p)) ++ [elem]))
+            else Ok (p :: k', v')
         end
     end.
-End Env.
+
+  Definition unsplit (k : list string) : list string :=
+    match k with [] => [EmptyString] | _ => k end.
+
+  Section Env.
+    Variable to_real : string -> cfg.      (* toRealType: YAML typing of a scalar text (oracle) *)
+    Variables fix3 fix4 : bool.
+    Variable pfx : string.
+
+    Definition norm_env (env : list (string * string)) : list (string * string) :=
+      map (fun nv => (normalise_key pfx (fst nv), snd nv))
+          (filter (fun nv => prefix pfx (fst nv)) env).
+
+    (** env.Provider.Read: the Go map keyed by "<newKey>#<hash>" *)
+    Fixpoint env_mp (rest : list (string * string)) (mp : list (key * cfg)) : res (list (key * cfg)) :=
+      match rest with
+      | [] => Ok mp
+      | (nk, val) :: r =>
+          match convert fix4 (split_dot nk) (to_real val) with
+          | Panic => Panic
+          | Ok (k, v) => env_mp r (set (unsplit k, Some (nk, val)) v mp)
+          end
+      end.
+
+    (** the merge function of koanfFromEnv / of Load: dest[name] = merge(dest[name], val) *)
+    Definition merge_top (strip_keys : bool) (dest src : list (key * cfg)) : res (list (key * cfg)) :=
+      fold_left (fun acc kv =>
+                   match acc with
+                   | Panic => Panic
+                   | Ok dest =>
+                       let k := if strip_keys then strip (fst kv) else fst kv in
+                       match merge fix3 (get k dest) (snd kv) with
+                       | Ok nv => Ok (set k nv dest)
+                       | Panic => Panic
+                       end
+                   end) (sh 1 src) (Ok dest).
+
+    Definition env_tree (env : list (string * string)) : res (list (key * cfg)) :=
+      match env_mp (norm_env env) [] with
+      | Panic => Panic
+      | Ok mp => merge_top true [] (unflatten mp)
+      end.
+
+    (** configloader.go Load up to the final decoding: defaults, then the file (if
+        any), then the environment *)
+    Definition load (d : list (key * cfg)) (f : option (list (key * cfg))) (env : list (string * string))
+      : res (list (key * cfg)) :=
+      match (match f with None => Ok d | Some fm => merge_top false d fm end) with
+      | Panic => Panic
+      | Ok p1 =>
+          match env_tree env with
+          | Panic => Panic
+          | Ok e => merge_top false p1 e
+          end
+      end.
+  End Env.
+End Order.
+
+(** the orders the evaluator tries: bit [i] of [bits] reverses site [i] *)
+Definition sh_bits (bits : list bool) : nat -> list (key * cfg) -> list (key * cfg) :=
+  fun site l => if nth site bits false then rev l else l.
